@@ -94,7 +94,7 @@ var funcSpecs = []funcSpec{
 	{rel: "internal/bech32", name: "hrpExpand"},
 	{rel: "internal/bech32", name: "verifyChecksum"},
 	{rel: "internal/bech32", name: "createChecksum"},
-	{rel: "internal/bech32", name: "convertBits", fuel: map[int]string{2: "bits.toNat + 1"}},
+	{rel: "internal/bech32", name: "convertBits", fuel: map[int]string{2: "$c1.toNat + 1"}},
 	{rel: "internal/bech32", name: "Encode"},
 	{rel: "internal/bech32", name: "Decode"},
 	{rel: "internal/stream", name: "incNonce"},
@@ -103,7 +103,7 @@ var funcSpecs = []funcSpec{
 	{rel: "internal/stream", name: "(*Reader).readChunk", opaque: streamOpaque, allowWrap: true},
 	{rel: "internal/stream", name: "(*Reader).Read", opaque: streamOpaque, allowWrap: true},
 	{rel: "internal/stream", name: "(*Writer).flushChunk", opaque: streamOpaque},
-	{rel: "internal/stream", name: "(*Writer).Write", opaque: streamOpaque, fuel: map[int]string{1: "2 * (Go.len p).toNat + 2"}},
+	{rel: "internal/stream", name: "(*Writer).Write", opaque: streamOpaque, fuel: map[int]string{1: "2 * (Go.len $p1).toNat + 2"}},
 	{rel: "internal/stream", name: "(*Writer).Close", opaque: streamOpaque},
 	{rel: "internal/format", name: "isValidString"},
 	{rel: "internal/format", name: "splitArgs"},
@@ -114,7 +114,7 @@ var funcSpecs = []funcSpec{
 	{rel: "plugin", name: "ParseRecipient"},
 	{rel: "", name: "slicesEqual"},
 	{rel: "internal/format", name: "(*StanzaReader).ReadStanza", abstract: []string{"format.DecodeString"}, allowWrap: true, errCtors: []string{"format.errorf"},
-		fuel: map[int]string{2: "(Go.len (r).r).toNat + 1"}},
+		fuel: map[int]string{2: "(Go.len ($recv).r).toNat + 1"}},
 	{rel: "internal/format", name: "NewStanzaReader"},
 	{rel: "internal/format", name: "Parse", abstract: []string{"format.DecodeString"}, allowWrap: true, errCtors: []string{"format.errorf"},
 		fuel: map[int]string{1: "(Go.len rr).toNat + 1"}, alias: map[string]string{"sr.r": "rr"},
@@ -134,9 +134,9 @@ var funcSpecs = []funcSpec{
 	{rel: "", name: "(*ScryptIdentity).Unwrap", abstract: []string{"errors.Is"}},
 	{rel: "", name: "ParseIdentities", abstract: []string{"age.ParseX25519Identity"}, opaque: map[string]string{"Identity": "κ", "X25519Identity": "κ"}, errInts: true},
 	{rel: "armor", name: "(*armoredReader).setErr"},
-	{rel: "armor", name: "(*armoredReader).Read", fuel: map[int]string{1: "(Go.len (r).r).toNat + 1"}},
+	{rel: "armor", name: "(*armoredReader).Read", fuel: map[int]string{1: "(Go.len ($recv).r).toNat + 1"}},
 	{rel: "internal/format", name: "(*WrappedBase64Encoder).writeWrapped", opaque: map[string]string{"io.Writer": "δ", "io.WriteCloser": "ω"},
-		fuel: map[int]string{1: "(Go.len p).toNat + 1"}},
+		fuel: map[int]string{1: "(Go.len $p1).toNat + 1"}},
 	{rel: "internal/format", name: "(*WrappedBase64Encoder).LastLineIsEmpty", opaque: map[string]string{"io.Writer": "δ", "io.WriteCloser": "ω"}},
 	{rel: "", name: "headerMAC", abstract: []string{"format.MarshalWithoutMAC"}, opaque: map[string]string{"io.Reader": "κ", "hash.Hash": "η", "io.Writer": "η"},
 		threaded: map[string][]string{"format.MarshalWithoutMAC": {"hh"}}},
@@ -2501,6 +2501,53 @@ func (c *fctx) prepareCondDefers() []string {
 	return decls
 }
 
+// fuelExpr resolves the placeholders of a fuel expression, so that renaming a variable in the source does not break it:
+// $c1, $c2 … the distinct variables of the loop condition in order of occurrence; $p1, $p2 … the parameters of the
+// function; $recv the receiver
+func (c *fctx) fuelExpr(at ast.Node, fuel string, cond ast.Expr) string {
+	if !strings.Contains(fuel, "$") {
+		return fuel
+	}
+	var cv []*types.Var
+	if cond != nil {
+		ast.Inspect(cond, func(n ast.Node) bool {
+			if id, ok := n.(*ast.Ident); ok {
+				if v, ok := c.info().Uses[id].(*types.Var); ok && !v.IsField() && v.Parent() != c.fi.Pkg.Types.Scope() {
+					for _, w := range cv {
+						if w == v {
+							return true
+						}
+					}
+					cv = append(cv, v)
+				}
+			}
+			return true
+		})
+	}
+	sig := c.fi.Obj.Type().(*types.Signature)
+	for i := 9; i >= 1; i-- {
+		if k := fmt.Sprintf("$c%d", i); strings.Contains(fuel, k) {
+			if i > len(cv) {
+				c.fail(at, "fuel expression names %s but the loop condition has %d variables", k, len(cv))
+			}
+			fuel = strings.ReplaceAll(fuel, k, c.nameOf(cv[i-1]))
+		}
+		if k := fmt.Sprintf("$p%d", i); strings.Contains(fuel, k) {
+			if i > sig.Params().Len() {
+				c.fail(at, "fuel expression names %s but the function has %d parameters", k, sig.Params().Len())
+			}
+			fuel = strings.ReplaceAll(fuel, k, c.nameOf(sig.Params().At(i-1)))
+		}
+	}
+	if strings.Contains(fuel, "$recv") {
+		if sig.Recv() == nil {
+			c.fail(at, "fuel expression names $recv in a function without receiver")
+		}
+		fuel = strings.ReplaceAll(fuel, "$recv", c.nameOf(sig.Recv()))
+	}
+	return fuel
+}
+
 // isLog: f is listed in funcSpec.logs
 func (c *fctx) isLog(f *types.Func) bool {
 	if f == nil || f.Pkg() == nil || c.spec == nil {
@@ -3545,6 +3592,7 @@ func (c *fctx) loop(e *emitter, ind int, s ast.Stmt) {
 			if fuel == "" {
 				c.fail(s, "loop %d is neither a range nor a counted loop and no fuel expression is configured for it", k)
 			}
+			fuel = c.fuelExpr(s, fuel, st.Cond)
 			if st.Init != nil {
 				c.stmt(e, ind, st.Init)
 			}
